@@ -2,10 +2,13 @@
 # usage: tools/try_seeded.sh <patch.diff> <PROPERTY> [more properties...]
 # Applies a seeded defect to /repo, runs the quick checks, and always reverts /repo afterwards.
 patch=$1; shift
+# Runs on a broken /repo must not replace the evidence of the unchanged tree in /verif/evidence.
+export VERIF_EVIDENCE_DIR=$(mktemp -d /var/tmp/seeded-evidence.XXXXXX)
+trap 'rm -rf "$VERIF_EVIDENCE_DIR"' EXIT
 cd /repo || exit 2
 if [ -n "$(git status --porcelain)" ]; then echo "/repo not clean"; exit 2; fi
 git apply "$patch" || { echo "patch does not apply"; exit 2; }
-trap 'git -C /repo checkout -- . ; git -C /repo clean -fdq -- broker aldrin core 2>/dev/null' EXIT
+trap 'rm -rf "$VERIF_EVIDENCE_DIR"; git -C /repo checkout -- . ; git -C /repo clean -fdq -- broker aldrin core 2>/dev/null' EXIT
 for p in "$@"; do
   out=$(cd /verif && ./check "$p" quick 2>&1)
   code=$?
